@@ -2,6 +2,8 @@ package h
 
 import (
 	"bytes"
+	"context"
+	"errors"
 	"fmt"
 	"time"
 
@@ -50,7 +52,7 @@ func toSimFaults(fs []FaultSpec) map[int]sim.Fault {
 		if f.Kind == "short" {
 			k = sim.FaultShort
 		}
-		m[f.Call] = sim.Fault{Kind: k, N: f.N}
+		m[f.Call] = sim.Fault{Kind: k, N: f.N, Trunc: f.Trunc}
 	}
 	return m
 }
@@ -98,6 +100,10 @@ func runFaultPlan(t *Trace, faults []FaultSpec, st *Stats) (out faultOutcome, v 
 	if t.Extra != nil {
 		if b, ok := t.Extra["retry"].(bool); ok {
 			retry = b
+		}
+		if t.Extra["cancelled_ctx"] == true {
+			putCtx = cancelledCtx()
+			defer func() { putCtx = bg }()
 		}
 	}
 	env := NewEnv()
@@ -238,6 +244,9 @@ func runFaultPlan(t *Trace, faults []FaultSpec, st *Stats) (out faultOutcome, v 
 		if perr != nil {
 			if verdict == putReject {
 				return nil
+			}
+			if putCtx != bg && errors.Is(perr, context.Canceled) {
+				return nil // refused because of the cancelled context, before anything was written
 			}
 			if lastFaultOp >= 0 {
 				laterFailed = true // permitted: the store may refuse to go on after a failure
@@ -580,6 +589,15 @@ func RunC16(t *Trace, st *Stats) *Violation {
 				return first
 			}
 		}
+		// the same outage also fails the Truncate with which the writer rolls the partial section back
+		if s := t.Cfg.Store; s == "rw" || s == "sc" || s == "sw" {
+			if !try([]FaultSpec{{Call: i, Kind: "fail", Trunc: true}}, loc+"+trunc") {
+				return first
+			}
+			if n > 1 && !try([]FaultSpec{{Call: i, Kind: "short", N: max(1, n/2), Trunc: true}}, loc+"+trunc") {
+				return first
+			}
+		}
 	}
 	// sampled two-fault plans
 	r := RunRng(t.Seed, "C16", "fault2", t.Run)
@@ -603,6 +621,10 @@ func faultFreeWrites(t *Trace) (lens []int, ops []int) {
 	prevFS := sim.CurrentFS
 	defer func() { sim.CurrentFS = prevFS }()
 	cfg := t.Cfg
+	if t.Extra != nil && t.Extra["cancelled_ctx"] == true {
+		putCtx = cancelledCtx()
+		defer func() { putCtx = bg }()
+	}
 	env := NewEnv()
 	sim.CurrentFS = env.FS
 	stream := cfg.Store == "ss" || cfg.Store == "ds"
@@ -728,6 +750,9 @@ func GenC16(seed uint64, run int) *Trace {
 	}
 	t.Ops = append(t.Ops, Op{Kind: "finalize"})
 	t.Extra = map[string]any{"enumerate": true, "retry": r.Bool()}
+	if r.Chance(1, 6) {
+		t.Extra["cancelled_ctx"] = true // every write call is made with an already cancelled context
+	}
 	return t
 }
 
